@@ -10,6 +10,7 @@ import math
 
 import numpy as np
 
+from ..core import InjectedCallbackError
 from ..worlds import frame as F
 
 ID = "C06"
@@ -30,7 +31,7 @@ ASSUMPTIONS = ["uses the returned signal (no independent evaluator; that would b
                "no fault kind applies (no I/O, no clock inside add_signal); a raising callback is C16's subject"]
 PROBES = ["bounding_range_inside", "bounding_range_clipped_low", "bounding_range_clipped_high", "bounding_range_outside_below",
           "bounding_range_outside_above", "bounding_range_empty_or_reversed", "float32_frame_injection", "prior_noise",
-          "superposition_checked", "other_frames_alive", "integrate_f_profile_bounded", "estimates_not_read_before_injection"]
+          "superposition_checked", "other_frames_alive", "integrate_f_profile_bounded", "estimates_not_read_before_injection", "callback_error_in_injection"]
 
 BOUND_KINDS = ["none", "none", "inside", "inside", "clip_low", "clip_high", "below", "above", "empty", "reversed", "whole"]
 
@@ -52,8 +53,23 @@ def generate(rng, tier):
     for _ in range(rng.randint(1, 6)):
         fi = rng.randrange(nfr)
         g = frames[fi]["geom"]
-        ops.append({"op": "inject", "fr": fi, "sig": F.gen_signal(rng, g, stateful=rng.random() < 0.4), "bounding": gen_bounding(rng),
-                    "observe_before": rng.random() < 0.5})
+        op = {"op": "inject", "fr": fi, "sig": F.gen_signal(rng, g, stateful=rng.random() < 0.4), "bounding": gen_bounding(rng),
+              "observe_before": rng.random() < 0.5}
+        if rng.random() < 0.12:
+            # the injection dies part-way: a user callback raises on its k-th evaluation
+            op["fault"] = {"which": rng.choice(["f_profile", "f_profile", "path", "t_profile"]), "at": rng.randint(1, 4)}
+            if rng.random() < 0.6:
+                op["sig"]["opts"] = dict(op["sig"]["opts"], doppler_smearing=True, smearing_subsamples=rng.choice([2, 5]))
+                if op["sig"]["path"]["kind"] == "array":
+                    op["sig"]["path"]["kind"] = "constant"
+        elif ops and ops[-1].get("fault") and rng.random() < 0.7:
+            # ... and the next injection has the same shape and options (what a retry looks like)
+            op["sig"]["opts"] = dict(ops[-1]["sig"]["opts"])
+            op["bounding"] = dict(ops[-1]["bounding"])
+            op["fr"] = ops[-1]["fr"]
+            if op["sig"]["path"]["kind"] == "array" and op["sig"]["opts"].get("doppler_smearing"):
+                op["sig"]["path"]["kind"] = "constant"
+        ops.append(op)
     return {"seams": {"clock_origin": 1.7e9 + rng.randrange(1000), "clock_jitter_seed": rng.randrange(1 << 20),
                       "entropy_salt": rng.randrange(1 << 20), "scratch": "c06"},
             "frames": frames, "ops": ops}
@@ -188,8 +204,37 @@ def execute(sc, ctx):
             ctx.hit("estimates_not_read_before_injection")
         before = [F.state_fields(f, with_noise=observe_before or k != op["fr"] % len(frames)) for k, f in enumerate(frames)]
         data_before = [np.array(f.data, copy=True) for f in frames]
+        fpath, ftp, ffp = path, tp, fp
+        if op.get("fault"):
+            box = {"n": 0}
+
+            def failing(fn, at=op["fault"]["at"]):
+                def wrapped(*a):
+                    box["n"] += 1
+                    if box["n"] == at:
+                        raise InjectedCallbackError("callback failed on evaluation %d" % at)
+                    return fn(*a)
+                return wrapped
+            w = op["fault"]["which"]
+            if w == "path" and callable(path):
+                fpath = failing(path)
+            elif w == "t_profile" and callable(tp):
+                ftp = failing(tp)
+            else:
+                ffp = failing(fp)
         try:
-            ret = fr.add_signal(path, tp, fp, bpp, **kw)
+            ret = fr.add_signal(fpath, ftp, ffp, bpp, **kw)
+        except InjectedCallbackError:
+            ctx.event("inject_fault", i)
+            ctx.fired("callback_error_in_injection")
+            # a failed injection adds nothing, to any frame
+            for k, f in enumerate(frames):
+                after = F.state_fields(f, with_noise="noise_mean" in before[k])
+                d = F.diff_fields(before[k], after)
+                if not ctx.check(not d and np.array_equal(f.data, data_before[k]), "fault",
+                                 "C06/fault/frame_changed_by_failed_injection", lambda: "changed: %s" % (d or ["data"])):
+                    return
+            continue
         except Exception as e:
             ctx.violation("inject", "C06/inject/raises:%s/bounding=%s%s" % (type(e).__name__, bk,
                                                                           "+integrate_f" if kw.get("integrate_f_profile") else ""),
@@ -211,6 +256,19 @@ def execute(sc, ctx):
                          lambda: "range %r -> columns [%d, %d) of %d; columns written outside: %s" % (
                              r, lo, hi, fr.fchans, np.flatnonzero(np.any(ret != 0, axis=0) & out_mask)[:8])):
             return
+        # (2b) the same signal computed separately on an empty twin frame is what this injection returned
+        stateful_sig = sig["path"]["kind"] == "rfi" or sig["t"]["kind"] == "pulse"
+        if not stateful_sig:
+            tw0 = _pristine(fr)
+            p3, t3, f3, b3 = F.signal_components(sig, g, fr.tchans, fr.fmin,
+                                                 fs_len=nfs * (kw.get("f_subsamples", 10) if kw.get("integrate_f_profile") else 1))
+            sep = np.asarray(tw0.add_signal(p3, t3, f3, b3, **kw))
+            sc_ = max(float(np.max(np.abs(sep))), 1e-300)
+            if not ctx.check(sep.shape == ret.shape and np.all(np.abs(sep - ret) <= 1e-12 * sc_), "separate",
+                             "C06/superposition/returned_differs_from_separately_computed/%s" % (
+                                 "smearing" if kw.get("doppler_smearing") else "plain"),
+                             lambda: "max diff %.4g of scale %.4g" % (float(np.max(np.abs(sep - ret))), sc_)):
+                return
         # (3) bounded == unbounded restricted (computed on a pristine twin)
         if r is not None and hi > lo:
             twin = _pristine(fr)
